@@ -35,6 +35,10 @@ def check(run):
                 continue
             effect.check_copy(run, eff, c.methods['copy'], fields)
             ncopy += 1
+            if cname == 'CliffordCircuit':
+                # the copy of a circuit is the same chain of (copied) layers: the relinking loop is interpreted on three layers
+                from ..rules import circuitrules
+                circuitrules.check_linked_list(run, c.methods['copy'])
         # (a) queries of the algebra / state classes
         for cname in ALG_CLASSES:
             c = repo.find_cls(pkg, cname)
@@ -116,6 +120,7 @@ def check(run):
     run.floor('R4d', 40)
     run.floor('R4a', 150)
     run.floor('R4b', 20)
+    run.floor('R10.link', 2)
     run.decide('%d copy methods: fresh result, no mutable field aliases the original, every denotation field derived from '
                'the same-named field; all query methods / constructors of the algebra, map and state classes and the '
                'circuit constructors write nothing reachable from receiver or arguments; in-place operations write '
